@@ -127,10 +127,31 @@ SortBal(bal) == IF bal = <<>> THEN <<>> ELSE InsertSorted(SortBal(SubSeq(bal, 1,
 CountAdj(cnt, had, has) == IF ~had /\ has THEN cnt + 1 ELSE IF had /\ ~has THEN (IF cnt > 0 THEN cnt - 1 ELSE 0) ELSE cnt
 \* (position counters saturate at i32 bounds; never reached in the model)
 
+\* BankAccountWrapper::claim_emissions (first statement of every balance operation): credit what the position earned
+\* since its last interaction, out of the bank's funded remainder, and restart the position's clock.
+\* Balance::get_side: liabilities >= 1 share -> Liabilities, else assets >= 1 share -> Assets, else none.
+SECS_PER_YEAR_F == FOfBig(BOfInt(31536000))
+MIN_EMISSIONS_START == BOfStr("1681989983")
+ClaimSide(s) == IF ~BLt(s.l, FOne) THEN "L" ELSE IF ~BLt(s.a, FOne) THEN "A" ELSE "N"
+ImplClaim(b, s, now) ==
+  LET side == ClaimSide(s)
+      earning == (side = "A" /\ Bit(b.flags, BANK_EMIS_LEND)) \/ (side = "L" /\ Bit(b.flags, BANK_EMIS_BORROW))
+  IN IF ~earning THEN [b |-> b, s |-> [s EXCEPT !.lu = now]]
+     ELSE LET amt == IF side = "A" THEN AssetAmount(b, s.a) ELSE LiabAmount(b, s.l)
+              last == IF BLt(s.lu, MIN_EMISSIONS_START) THEN now ELSE s.lu
+          IN IF BLt(now, last) THEN E("MathError")
+             ELSE LET period == FOfBig(BSub(now, last))
+                      ui == FDiv(amt, Exp10(b.dec))
+                      em == FMul(FDiv(FMul(period, ui), SECS_PER_YEAR_F), FOfBig(b.emis_rate))
+                      real == BMin(em, b.emis_rem)
+                  IN [b |-> [b EXCEPT !.emis_rem = BSub(@, real)], s |-> [s EXCEPT !.emis = BAdd(@, real), !.lu = now]]
+
 \* increase_balance_internal(delta, kind) on slot i; kind in {"DepositOnly","RepayOnly","Bypass"}
 \* returns [b |-> bank', bal |-> bal'] or error
-ImplIncrease(b, bal, i, delta, kind, now) ==
-  LET s == bal[i]
+ImplIncrease(b0, bal, i, delta, kind, now) ==
+  LET cl == ImplClaim(b0, bal[i], now) IN
+  IF IsErr(cl) THEN cl ELSE
+  LET b == cl.b s == cl.s
       hadA == IsPosTol(s.a) hadL == IsPosTol(s.l)
       curL == LiabAmount(b, s.l)
       dec == BMin(curL, delta)
@@ -147,8 +168,10 @@ ImplIncrease(b, bal, i, delta, kind, now) ==
                                        !.borrow_cnt = CountAdj(b2.borrow_cnt, hadL, IsPosTol(s2.l))]
                   IN [b |-> b3, bal |-> [bal EXCEPT ![i] = s2]]
 \* decrease_balance_internal(delta, kind); kind in {"WithdrawOnly","BorrowOnly","Bypass"}
-ImplDecrease(b, bal, i, delta, kind, now) ==
-  LET s == bal[i]
+ImplDecrease(b0, bal, i, delta, kind, now) ==
+  LET cl == ImplClaim(b0, bal[i], now) IN
+  IF IsErr(cl) THEN cl ELSE
+  LET b == cl.b s == cl.s
       hadA == IsPosTol(s.a) hadL == IsPosTol(s.l)
       curA == AssetAmount(b, s.a)
       dec == BMin(curA, delta)
@@ -166,8 +189,10 @@ ImplDecrease(b, bal, i, delta, kind, now) ==
                                        !.borrow_cnt = CountAdj(b2.borrow_cnt, hadL, IsPosTol(s2.l))]
                   IN [b |-> b3, bal |-> [bal EXCEPT ![i] = s2]]
 \* withdraw_all -> [b, bal, pay] or error
-ImplWithdrawAll(b, bal, i) ==
-  LET s == bal[i] A == AssetAmount(b, s.a) L == LiabAmount(b, s.l) IN
+ImplWithdrawAll(b0, bal, i, now) ==
+  LET cl == ImplClaim(b0, bal[i], now) IN
+  IF IsErr(cl) THEN cl ELSE
+  LET b == cl.b s == cl.s A == AssetAmount(b, s.a) L == LiabAmount(b, s.l) IN
   IF ~IsPosTol(A) THEN E("NoAssetFound")
   ELSE IF ~IsZeroTol(L) THEN E("NoAssetFound")
   ELSE IF ~BLt(s.emis, FOne) THEN E("CannotCloseOutstandingEmissions")
@@ -175,16 +200,20 @@ ImplWithdrawAll(b, bal, i) ==
        IF ~UtilizationOk(b1) THEN E("IllegalUtilizationRatio")
        ELSE LET pay == FFloor(A) IN
             [b |-> [b1 EXCEPT !.fee_ins = BAdd(BSub(A, pay), b.fee_ins)], bal |-> [bal EXCEPT ![i] = EmptySlot], pay |-> FToInt(pay)]
-ImplRepayAll(b, bal, i) ==
-  LET s == bal[i] L == LiabAmount(b, s.l) A == AssetAmount(b, s.a) IN
+ImplRepayAll(b0, bal, i, now) ==
+  LET cl == ImplClaim(b0, bal[i], now) IN
+  IF IsErr(cl) THEN cl ELSE
+  LET b == cl.b s == cl.s L == LiabAmount(b, s.l) A == AssetAmount(b, s.a) IN
   IF ~IsPosTol(L) THEN E("NoLiabilityFound")
   ELSE IF ~IsZeroTol(A) THEN E("NoLiabilityFound")
   ELSE IF ~BLt(s.emis, FOne) THEN E("CannotCloseOutstandingEmissions")
   ELSE LET b1 == [b EXCEPT !.borrow_cnt = IF @ > 0 THEN @ - 1 ELSE 0, !.tls = BSub(b.tls, s.l)]
            chg == FCeil(L)
        IN [b |-> [b1 EXCEPT !.fee_ins = BAdd(BSub(chg, L), b.fee_ins)], bal |-> [bal EXCEPT ![i] = EmptySlot], pay |-> FToInt(chg)]
-ImplCloseBalance(b, bal, i) ==
-  LET s == bal[i] IN
+ImplCloseBalance(b0, bal, i, now) ==
+  LET cl == ImplClaim(b0, bal[i], now) IN
+  IF IsErr(cl) THEN cl ELSE
+  LET b == cl.b s == cl.s IN
   IF ~IsZeroTol(LiabAmount(b, s.l)) \/ ~IsZeroTol(AssetAmount(b, s.a)) THEN E("IllegalBalanceState")
   ELSE IF ~BLt(s.emis, FOne) THEN E("CannotCloseOutstandingEmissions")
   ELSE [b |-> b, bal |-> [bal EXCEPT ![i] = EmptySlot]]
